@@ -514,12 +514,6 @@ func (s *rSim) deliverGlob() string {
 	case "update":
 		o, n := ev.oldS.(*sResv), ev.newS.(*sResv)
 		oT, nT := o.terminal(), n.terminal()
-		if o.uid() != n.uid() && !o.available() && s.model.resvs[o.uid()] != nil {
-			// history class of finding "reservation-replaced-in-merged-update-while-not-available": a delete+add of
-			// the same name merged into one update (relist) replaces a cached reservation that is Waiting or
-			// already terminated; no handler removes the old uid
-			s.r.Tag("reservation-replaced-in-merged-update-while-not-available")
-		}
 		unassigned := func(x *sResv) bool { return x.Node == "" && !x.terminal() }
 		switch {
 		case oT && nT:
@@ -532,6 +526,13 @@ func (s *rSim) deliverGlob() string {
 			del(o)
 		case o.available() && unassigned(n):
 			del(o)
+		}
+		if o.uid() != n.uid() && s.model.resvs[o.uid()] != nil {
+			// history class of finding "reservation-replaced-in-merged-update-unhandled": a delete+add of the same
+			// name merged into one update (relist) replaces a cached reservation, and the (old, new) pair matches
+			// none of the global handler's transition cases that delete the old object (old Waiting or terminated,
+			// or old Available and new Waiting): no handler removes the old uid
+			s.r.Tag("reservation-replaced-in-merged-update-unhandled")
 		}
 	case "delete":
 		o := ev.oldS.(*sResv)
@@ -563,13 +564,18 @@ func (s *rSim) deliverPod() string {
 			s.r.Probe("pod-update-uid-changed")
 		}
 		s.tagStaleRequests(o, n)
+		if o.uid() != n.uid() {
+			// delete+add merged: the old incarnation is gone; it is released only when the handler looks at the
+			// old object's record (new pod not terminated and one of the two bound)
+			rec := "<none>"
+			if !n.terminated() && (o.Node != "" || n.Node != "") {
+				rec = o.RUID
+			}
+			s.tagStaleDelete(&sPod{Name: o.Name, Gen: o.Gen, RUID: rec})
+		}
 		if n.terminated() {
 			s.tagStaleDelete(n)
-			if o.uid() != n.uid() {
-				// the old incarnation is never released: only the new object is looked at
-				s.tagStaleDelete(&sPod{Name: o.Name, Gen: o.Gen, RUID: "<none>"})
-			}
-		} else if (n.Node == "" && o.Node != "") || (n.Node != "" && o.uid() != n.uid()) {
+		} else if n.Node == "" && o.Node != "" && o.uid() == n.uid() {
 			s.tagStaleDelete(o)
 		}
 		s.ph.OnUpdate(o.obj(), n.obj())
